@@ -196,6 +196,16 @@ func c19GenCommit(r *vu.RNG) c19Commit {
 			c.tree.parents = append(c.tree.parents, r.Intn(i))
 		}
 	}
+	if c.tree.base >= 0xffffff00 && r.Chance(1, 2) {
+		// the deepest block of the tree is numbered exactly 2^32 - 1: base + depth reaches the top of uint32
+		deepest := uint64(0)
+		for blk := 0; blk < m; blk++ {
+			if d := c.tree.num(blk) - c.tree.base; d > deepest {
+				deepest = d
+			}
+		}
+		c.tree.base = 0xffffffff - deepest
+	}
 	c.tblk = r.Intn(m)
 	c.tnum = c.tree.num(c.tblk)
 	if r.Chance(1, 30) {
@@ -377,6 +387,15 @@ func c19GenNested(r *vu.RNG) c19Commit {
 		sides = append(sides, chain(chain(0, 1), r.Intn(2)))
 	}
 	m := len(c.tree.parents) + 1
+	if c.tree.base >= 0xffffff00 && r.Chance(1, 2) { // deepest block numbered exactly 2^32 - 1
+		deepest := uint64(0)
+		for blk := 0; blk < m; blk++ {
+			if d := c.tree.num(blk) - c.tree.base; d > deepest {
+				deepest = d
+			}
+		}
+		c.tree.base = 0xffffffff - deepest
+	}
 	type vt struct {
 		w   uint64
 		blk int
